@@ -6,14 +6,18 @@ import (
 	"os"
 	"os/exec"
 	"path/filepath"
+	"runtime"
 	"sort"
 	"strings"
 	"time"
 
+	"github.com/sboehler/knut/lib/journal"
+	"github.com/sboehler/knut/lib/model"
 	"github.com/sboehler/knut/lib/model/registry"
 	"github.com/sboehler/knut/lib/model/transaction"
 	"github.com/sboehler/knut/lib/syntax"
 	"github.com/sboehler/knut/lib/syntax/parser"
+	"github.com/shopspring/decimal"
 )
 
 func init() { runners["C10"] = runC10 }
@@ -603,6 +607,12 @@ func runC10(c *Ctx) {
 	}
 	bt := c.NewBatch()
 	defer bt.Flush()
+	if !c.Replay || c.OnlyStr == "loader" {
+		c.c10LoaderStream()
+		if c.Replay {
+			return
+		}
+	}
 	if c.Replay && c.ReplayInput != nil && c.OnlyStr != "dec" && c.OnlyStr != "print" {
 		text, _ := c.ReplayInput["text"].(string)
 		stream, idx := c.OnlyStr, c.OnlyIndex
@@ -657,5 +667,529 @@ func runC10(c *Ctx) {
 		}
 		bt.Flush()
 		c.Notes = append(c.Notes, fmt.Sprintf("directed search: %d variations (4 intervals x shifted window starts/ends, single bookings with simple quantities) of %d cases on which Create differs from the model", n, len(gens)))
+	}
+}
+
+// ---------------------------------------------------------------- stream loader
+//
+// C10 on what the real loading pipeline builds: a text journal spread over an include tree of 4-12 files, some of which
+// hold accruals that expand into hundreds or thousands of transactions (daily over years, weekly / monthly over decades)
+// next to many small files and bulk files of plain transactions (slow to parse: they arrive late), loaded
+//   (a) through journal.FromPath (what `knut balance` does) and
+//   (b) through the same three stages composed by hand (syntax.ParseFileRecursively -> model.FromStream -> Builder.Add per
+//       directive, as journal.FromModelStream does) with a consumer that loses the CPU at seeded places inside a batch,
+// each under GOMAXPROCS 1 / 2 / 16. On every loaded journal the property's statements are evaluated per original accrual
+// transaction (the transactions carrying its unique description): each balances, per account and commodity they add up to
+// what the original books, the accrual account nets to zero, one transaction per period end; and the loaded journal holds the
+// same transactions as the single-file load of the same text.
+
+type c10LTx struct {
+	Desc   string
+	Text   string
+	Accrue string // accrual account ("" = plain)
+}
+
+type c10LFile struct {
+	Name  string
+	Kind  string
+	Txs   []int // indexes into the case's transactions
+	Incl  []int // members included from this file
+	First bool  // includes before the transactions
+}
+
+type c10LCase struct {
+	Files []c10LFile // Files[0] is the root
+	Txs   []c10LTx
+	Opens []string
+}
+
+func (k *c10LCase) fileText(f int, single bool) string {
+	var b strings.Builder
+	fl := k.Files[f]
+	if f == 0 {
+		for _, a := range k.Opens {
+			fmt.Fprintf(&b, "1900-01-01 open %s\n", a)
+		}
+		b.WriteString("\n")
+	}
+	incl := func() {
+		for _, m := range fl.Incl {
+			if single {
+				b.WriteString(k.fileText(m, true))
+			} else {
+				fmt.Fprintf(&b, "include \"%s\"\n\n", k.Files[m].Name)
+			}
+		}
+	}
+	if fl.First {
+		incl()
+	}
+	for _, t := range fl.Txs {
+		b.WriteString(k.Txs[t].Text)
+		b.WriteString("\n")
+	}
+	if !fl.First {
+		incl()
+	}
+	return b.String()
+}
+
+func c10LoaderGen(r *RNG, thorough bool) *c10LCase {
+	k := &c10LCase{}
+	assets := []string{"Assets:Bank", "Assets:Bank:Checking", "Assets:Cash", "Liabilities:Card"}
+	exps := []string{"Expenses:Rent", "Expenses:Tax", "Expenses:Tax:Federal", "Expenses:Food", "Income:Salary", "Income:Interest"}
+	seen := map[string]bool{}
+	use := func(a string) string {
+		if !seen[a] {
+			seen[a] = true
+			k.Opens = append(k.Opens, a)
+		}
+		return a
+	}
+	day := func(y0, y1 int) time.Time {
+		return time.Date(r.Range(y0, y1), time.Month(r.Range(1, 12)), r.Range(1, 28), 0, 0, 0, 0, time.UTC)
+	}
+	qty := func() string {
+		switch r.Intn(4) {
+		case 0:
+			return fmt.Sprintf("%d", r.Range(1, 20000))
+		case 1:
+			return Pick(r, []string{"12000.07", "100", "1000", "0.1", "7", "99.99", "-100", "1"})
+		}
+		return fmt.Sprintf("%d.%02d", r.Range(0, 5000), r.Intn(100))
+	}
+	bookings := func(n int) string {
+		var b strings.Builder
+		for ; n > 0; n-- {
+			cr, db := use(Pick(r, assets)), use(Pick(r, exps))
+			if r.Chance(1, 8) {
+				cr, db = db, cr
+			}
+			fmt.Fprintf(&b, "%s %s %s %s\n", cr, db, qty(), Pick(r, []string{"CHF", "CHF", "USD"}))
+		}
+		return b.String()
+	}
+	plain := func() int {
+		d := fmt.Sprintf("t%d", len(k.Txs))
+		k.Txs = append(k.Txs, c10LTx{Desc: d, Text: fmt.Sprintf("%s \"%s\"\n%s", day(2000, 2030).Format("2006-01-02"), d, bookings(1+r.Intn(2)))})
+		return len(k.Txs) - 1
+	}
+	accrual := func(long bool) int {
+		d := fmt.Sprintf("t%d", len(k.Txs))
+		acc := use(fmt.Sprintf("%s:N%d", Pick(r, []string{"Assets:Prepaid", "Liabilities:Accrued", "Equity:Accruals"}), len(k.Txs)))
+		start := day(1990, 2025)
+		var iv string
+		var end time.Time
+		if long {
+			switch r.Intn(5) {
+			case 0, 1:
+				iv, end = "daily", start.AddDate(0, 0, r.Range(120, 1100))
+			case 2:
+				iv, end = "daily", time.Date(start.Year(), 12, 31, 0, 0, 0, 0, time.UTC)
+				start = time.Date(start.Year(), 1, 1, 0, 0, 0, 0, time.UTC)
+			case 3:
+				iv, end = "weekly", start.AddDate(r.Range(3, 40), 0, r.Intn(300))
+			default:
+				iv, end = "monthly", start.AddDate(r.Range(10, 80), r.Intn(12), 0)
+			}
+		} else {
+			iv = Pick(r, c10Intervals)
+			unit := map[string]int{"daily": 1, "weekly": 7, "monthly": 30, "quarterly": 91}[iv]
+			end = start.AddDate(0, 0, r.Range(0, 20)*unit+r.Intn(unit))
+		}
+		txd := start.AddDate(0, 0, r.Range(-40, 400))
+		k.Txs = append(k.Txs, c10LTx{Desc: d, Accrue: acc, Text: fmt.Sprintf("@accrue %s %s %s %s\n%s \"%s\"\n%s", iv,
+			start.Format("2006-01-02"), end.Format("2006-01-02"), acc, txd.Format("2006-01-02"), d, bookings(1+r.Intn(2)))})
+		return len(k.Txs) - 1
+	}
+	nf := r.Range(4, 12)
+	k.Files = append(k.Files, c10LFile{Name: "root.knut", Kind: "root", First: r.Chance(2, 3)})
+	for n := r.Intn(3); n > 0; n-- {
+		k.Files[0].Txs = append(k.Files[0].Txs, plain())
+	}
+	long := 0
+	for m := 1; m <= nf; m++ {
+		f := c10LFile{Name: fmt.Sprintf("m%02d.knut", m), First: r.Bool()}
+		kind := r.Intn(10)
+		if m == nf && long == 0 {
+			kind = 4
+		}
+		switch {
+		case kind < 3:
+			f.Kind = "small"
+			for n := r.Range(1, 5); n > 0; n-- {
+				if r.Chance(1, 4) {
+					f.Txs = append(f.Txs, accrual(false))
+				} else {
+					f.Txs = append(f.Txs, plain())
+				}
+			}
+		case kind < 7:
+			f.Kind = "long"
+			long++
+			for n := r.Intn(3); n > 0; n-- {
+				f.Txs = append(f.Txs, plain())
+			}
+			f.Txs = append(f.Txs, accrual(true))
+			if r.Chance(1, 5) {
+				f.Txs = append(f.Txs, accrual(true))
+			}
+			for n := r.Intn(3); n > 0; n-- {
+				f.Txs = append(f.Txs, plain())
+			}
+		case kind < 9:
+			f.Kind = "bulk"
+			hi := 1500
+			if thorough {
+				hi = 6000
+			}
+			for n := r.Range(100, hi); n > 0; n-- {
+				f.Txs = append(f.Txs, plain())
+			}
+		default:
+			f.Kind = "medium"
+			for n := r.Range(10, 40); n > 0; n-- {
+				if r.Bool() {
+					f.Txs = append(f.Txs, accrual(false))
+				} else {
+					f.Txs = append(f.Txs, plain())
+				}
+			}
+		}
+		parent := 0
+		if m > 1 && r.Chance(1, 3) {
+			parent = r.Range(1, m-1)
+		}
+		k.Files = append(k.Files, f)
+		k.Files[parent].Incl = append(k.Files[parent].Incl, m)
+	}
+	return k
+}
+
+// c10LRun: one way of loading the tree.
+type c10LRun struct {
+	Paused bool
+	Procs  int
+}
+
+func (ru c10LRun) String() string {
+	if ru.Paused {
+		return fmt.Sprintf("ParseFileRecursively -> model.FromStream -> Builder.Add per directive, consumer pausing inside batches, GOMAXPROCS=%d", ru.Procs)
+	}
+	return fmt.Sprintf("journal.FromPath, GOMAXPROCS=%d", ru.Procs)
+}
+
+// c10LoadPaused is journal.FromPath with the last stage written out: every batch of the model stream is booked directive by
+// directive, and at seeded positions inside a batch the consumer yields or sleeps (a legal schedule of the real consumer).
+func c10LoadPaused(root string, r *RNG) (jb *journal.Builder, err error) {
+	ctx, cancel := context.WithCancel(context.Background())
+	defer cancel()
+	syntaxCh, w1 := syntax.ParseFileRecursively(root)
+	modelCh, w2 := model.FromStream(registry.New(), syntaxCh)
+	errs := make(chan error, 2)
+	go func() { errs <- w1(ctx) }()
+	go func() { errs <- w2(ctx) }()
+	jb = journal.New()
+	for ds := range modelCh {
+		pause := map[int]int{}
+		if len(ds) > 1 && r.Chance(3, 4) {
+			for n := r.Range(1, 3); n > 0; n-- {
+				p := 1
+				if r.Bool() {
+					p = r.Range(1, len(ds)-1)
+				}
+				pause[p] = r.Intn(5)
+			}
+		}
+		for n, d := range ds {
+			if how, ok := pause[n]; ok {
+				switch how {
+				case 0:
+					runtime.Gosched()
+				case 1:
+					time.Sleep(50 * time.Microsecond)
+				case 2:
+					time.Sleep(500 * time.Microsecond)
+				default:
+					time.Sleep(3 * time.Millisecond)
+				}
+			}
+			if e := jb.Add(d); e != nil && err == nil {
+				err = e
+				cancel()
+			}
+		}
+	}
+	for n := 0; n < 2; n++ {
+		if e := <-errs; e != nil && err == nil {
+			err = e
+		}
+	}
+	return jb, err
+}
+
+func c10LoadTxs(path string, paused bool, r *RNG) (txs []*transaction.Transaction, err error) {
+	defer func() {
+		if p := recover(); p != nil {
+			err = fmt.Errorf("panic %v", p)
+		}
+	}()
+	var jb *journal.Builder
+	if paused {
+		jb, err = c10LoadPaused(path, r)
+	} else {
+		jb, err = journal.FromPath(context.Background(), registry.New(), path)
+	}
+	if err != nil {
+		return nil, err
+	}
+	for _, d := range jb.Build().Days {
+		txs = append(txs, d.Transactions...)
+	}
+	return txs, nil
+}
+
+func c10LKey(desc string) string {
+	if i := strings.Index(desc, " (accrual "); i >= 0 {
+		return desc[:i]
+	}
+	return desc
+}
+
+// c10Sum: total per "account commodity" over the postings of the transactions (zero totals dropped).
+func c10Sum(txs []*transaction.Transaction) map[string]string {
+	sums := map[string]decimal.Decimal{}
+	for _, t := range txs {
+		for _, p := range t.Postings {
+			key := p.Account.Name() + " " + p.Commodity.Name()
+			sums[key] = sums[key].Add(p.Quantity)
+		}
+	}
+	out := map[string]string{}
+	for key, v := range sums {
+		if !v.IsZero() {
+			out[key] = v.String()
+		}
+	}
+	return out
+}
+
+func c10MapStr(m map[string]string) string {
+	var ks []string
+	for k, v := range m {
+		ks = append(ks, k+"="+v)
+	}
+	sort.Strings(ks)
+	return "{" + strings.Join(ks, ", ") + "}"
+}
+
+// c10LExpect: per transaction of the case, what the original books (real Create without the annotation) and the dates of
+// its expansion (real Create with it; that list itself is checked against the model by the stream `accrual`).
+type c10LExp struct {
+	Orig  map[string]string
+	Dates []int
+	OK    bool
+}
+
+func c10LExpect(t c10LTx) (e c10LExp) {
+	p := parser.New(t.Text, "")
+	if err := p.Advance(); err != nil {
+		return
+	}
+	f, err := p.ParseFile()
+	if err != nil {
+		return
+	}
+	for i := range f.Directives {
+		if trx, ok := f.Directives[i].Directive.(syntax.Transaction); ok {
+			o, gen := c10Create(&trx)
+			plain := trx
+			plain.Addons.Accrual = syntax.Accrual{}
+			o2, orig := c10Create(&plain)
+			if o != "ok" || o2 != "ok" {
+				return
+			}
+			e.Orig = c10Sum(orig)
+			for _, g := range gen {
+				e.Dates = append(e.Dates, dayNum(g.Date))
+			}
+			sort.Ints(e.Dates)
+			e.OK = true
+			return
+		}
+	}
+	return
+}
+
+func c10Balanced(t *transaction.Transaction) bool {
+	if len(t.Postings)%2 != 0 {
+		return false
+	}
+	for i := 0; i+1 < len(t.Postings); i += 2 {
+		a, b := t.Postings[i], t.Postings[i+1]
+		if a.Commodity != b.Commodity || a.Account != b.Other || a.Other != b.Account || !a.Quantity.Add(b.Quantity).IsZero() {
+			return false
+		}
+	}
+	return true
+}
+
+func c10ShowSorted(txs []*transaction.Transaction) []string {
+	out := make([]string, len(txs))
+	for i, t := range txs {
+		out[i] = c10ShowTx(t)
+	}
+	sort.Strings(out)
+	return out
+}
+
+// c10LJudge evaluates the property's statements on a loaded journal; "" = all hold.
+func c10LJudge(k *c10LCase, exp []c10LExp, txs []*transaction.Transaction, single []string) string {
+	fam := map[string][]*transaction.Transaction{}
+	for _, t := range txs {
+		if !c10Balanced(t) {
+			return fmt.Sprintf("each_balances: transaction %s %q is not a pair of mutually negated postings: %s", t.Date.Format("2006-01-02"), t.Description, c10Readable([]string{c10ShowTx(t)}))
+		}
+		fam[c10LKey(t.Description)] = append(fam[c10LKey(t.Description)], t)
+	}
+	// the accrual transactions first, then the plain ones (which must simply be there once)
+	order := make([]int, 0, len(k.Txs))
+	for n := range k.Txs {
+		if k.Txs[n].Accrue != "" {
+			order = append(order, n)
+		}
+	}
+	for n := range k.Txs {
+		if k.Txs[n].Accrue == "" {
+			order = append(order, n)
+		}
+	}
+	for _, n := range order {
+		t := k.Txs[n]
+		if !exp[n].OK {
+			continue
+		}
+		got := fam[t.Desc]
+		sum := c10Sum(got)
+		if t.Accrue != "" {
+			for key, v := range sum {
+				if strings.HasPrefix(key, t.Accrue+" ") {
+					return fmt.Sprintf("accrual_nets_zero: the transactions generated from %q leave %s on the accrual account (%d transactions loaded, expansion has %d)\n%s", t.Desc, v, len(got), len(exp[n].Dates), t.Text)
+				}
+			}
+		}
+		if a, b := c10MapStr(sum), c10MapStr(exp[n].Orig); a != b {
+			return fmt.Sprintf("conserves: the transactions loaded for %q book %s, the original books %s (%d transactions loaded, expansion has %d)\n%s", t.Desc, a, b, len(got), len(exp[n].Dates), t.Text)
+		}
+		var dates []int
+		for _, g := range got {
+			dates = append(dates, dayNum(g.Date))
+		}
+		sort.Ints(dates)
+		if fmt.Sprint(dates) != fmt.Sprint(exp[n].Dates) {
+			return fmt.Sprintf("dates: %q is loaded as %d transactions, one per period end (and per other leg) makes %d; dates differ\n%s", t.Desc, len(dates), len(exp[n].Dates), t.Text)
+		}
+	}
+	got := c10ShowSorted(txs)
+	if len(got) != len(single) {
+		return fmt.Sprintf("same_as_single_file: %d transactions loaded from the tree, %d from the same text in one file", len(got), len(single))
+	}
+	for i := range got {
+		if got[i] != single[i] {
+			return fmt.Sprintf("same_as_single_file: differs from the single-file load at sorted position %d: tree %s, single file %s", i, c10Readable(got[i:i+1]), c10Readable(single[i:i+1]))
+		}
+	}
+	return ""
+}
+
+func (c *Ctx) c10LoaderStream() {
+	if c.WorkDir == "" {
+		return
+	}
+	defaultProcs := runtime.GOMAXPROCS(0)
+	defer runtime.GOMAXPROCS(defaultProcs)
+	n := c.N(10, 150)
+	t0, loads := time.Now(), 0
+	defer func() {
+		c.Notes = append(c.Notes, fmt.Sprintf("stream loader: %d include trees, %d loads (journal.FromPath and the hand-composed pipeline with a pausing consumer, GOMAXPROCS 1/2/16) in %.1fs", n, loads, time.Since(t0).Seconds()))
+	}()
+	for i := 0; i < n; i++ {
+		if !c.Want("loader", i) {
+			continue
+		}
+		r := c.Rng("loader", i)
+		k := c10LoaderGen(r, c.Thorough())
+		dir := filepath.Join(c.WorkDir, fmt.Sprintf("c10loader-%d", i))
+		os.RemoveAll(dir)
+		if err := os.MkdirAll(dir, 0o755); err != nil {
+			fatalf("%v", err)
+		}
+		var summary []string
+		for f := range k.Files {
+			text := k.fileText(f, false)
+			if err := os.WriteFile(filepath.Join(dir, k.Files[f].Name), []byte(text), 0o644); err != nil {
+				fatalf("%v", err)
+			}
+			summary = append(summary, fmt.Sprintf("%s (%s, %d transactions, includes %v): %s", k.Files[f].Name, k.Files[f].Kind, len(k.Files[f].Txs), k.Files[f].Incl, clipN(text, 400)))
+		}
+		if err := os.WriteFile(filepath.Join(dir, "single.knut"), []byte(k.fileText(0, true)), 0o644); err != nil {
+			fatalf("%v", err)
+		}
+		exp := make([]c10LExp, len(k.Txs))
+		gen := 0
+		for j, t := range k.Txs {
+			exp[j] = c10LExpect(t)
+			gen += len(exp[j].Dates)
+		}
+		root := filepath.Join(dir, "root.knut")
+		stx, err := c10LoadTxs(filepath.Join(dir, "single.knut"), false, nil)
+		in := map[string]any{"files": summary, "dir": dir, "load": "single file"}
+		if !c.Monitor("loader", i, "loads", in, err == nil, fmt.Sprint(err)) {
+			continue
+		}
+		single := c10ShowSorted(stx)
+		if msg := c10LJudge(k, exp, stx, single); msg != "" {
+			c.Monitor("loader", i, "accruals conserve money in the loaded journal (single file)", in, false, msg)
+			continue
+		}
+		var runs []c10LRun
+		for _, procs := range []int{1, 2, 16} {
+			runs = append(runs, c10LRun{false, procs}, c10LRun{true, procs})
+		}
+		if c.Thorough() {
+			runs = append(runs, c10LRun{true, 4}, c10LRun{false, defaultProcs}, c10LRun{true, defaultProcs})
+		}
+		failed := false
+		for rn, ru := range runs {
+			c.Evals++
+			loads++
+			runtime.GOMAXPROCS(ru.Procs)
+			txs, err := c10LoadTxs(root, ru.Paused, c.Rng("loader-pause", i*64+rn))
+			runtime.GOMAXPROCS(defaultProcs)
+			in := map[string]any{"files": summary, "dir": dir, "load": ru.String()}
+			if !c.Monitor("loader", i, "loads", in, err == nil, fmt.Sprint(err)) {
+				failed = true
+				break
+			}
+			if msg := c10LJudge(k, exp, txs, single); msg != "" {
+				c.Monitor("loader", i, "accruals conserve money in the loaded journal", in, false, ru.String()+": "+msg)
+				failed = true
+				break
+			}
+			c.Monitored++
+		}
+		nl := 0
+		for _, f := range k.Files {
+			if f.Kind == "long" || f.Kind == "bulk" {
+				nl++
+			}
+		}
+		c.Class(fmt.Sprintf("c10/loader/files%s/big%d/gen%s", bucket(len(k.Files)), minInt(nl, 6), bucket(gen)))
+		if i < 1 {
+			c.Sample(map[string]any{"stream": "loader", "files": len(k.Files), "transactions": len(k.Txs), "generated": gen})
+		}
+		if !failed {
+			os.RemoveAll(dir)
+		}
 	}
 }
